@@ -76,7 +76,7 @@ def judge_union(res, case, la, lb, ld, slots_a, slots_b):
 def shard(shard_no, nshards, seed, tier, extra):
     res = common.Result()
     rng = common.rng_for(seed, "c11", shard_no)
-    n = 36 if tier == "quick" else 1500
+    n = 36 if tier == "quick" else 3000
     d = common.Driver("rel", shim=True)
     table = keccak.slot_hash_table()
     for i in range(n):
